@@ -59,6 +59,7 @@ pub fn gen_plan(seed: u64, mode: TwinMode, thorough: bool) -> TwinPlan {
         whole_sec: true,
         allow_restart: mode == TwinMode::Backends,
         allow_seed: true,
+        foreign_lock_pct: 0,
     };
     let mut ops = seq::gen_ops(&mut r, &p, n_clients, &cfg, page_size.unwrap_or(4096));
     if mode == TwinMode::Backends {
@@ -286,6 +287,7 @@ pub fn gen_iso(seed: u64, backend: Backend, entry: Entry, thorough: bool) -> Iso
         whole_sec: r.chance(50, 100),
         allow_restart: true,
         allow_seed: true,
+        foreign_lock_pct: 0,
     };
     let mut ops = seq::gen_ops(&mut r, &p, n_clients, &cfg, page_size.unwrap_or(4096));
     // quote foreign ids on purpose: rewrite a share of the id arguments
